@@ -15,6 +15,8 @@ pool's start method substituted by `fork`; with the library's own `spawn` the em
 run for every pipeline and a rotating sample of the others (quick) / all of them plus 7
 utterances with {0, 1, 3} workers (thorough).
 """
+import contextlib
+import io
 import json
 import os
 import subprocess
@@ -39,6 +41,17 @@ ODD_SHIFTS = [11.61, 11.6, 1000 / 44100, 0.1]
 PREFIXES = ["", "", "p_", "ab", "x.", "_s"]
 SUFFIXES = [".pt", ".pt", "", "_s", ".ba", ".pt.bak"]
 UTT_CHARS = "abpu_x12.-t"
+
+
+# vocabularies of the error-rate cases: (class, ids of the corpus, one more id that only --replace / --ignore name)
+ER_VOCABS = [
+    ("nonneg", [0, 1, 2, 3, 4], 9),
+    ("signed", [-3, -2, -1, 0, 1, 2, 3], -9),
+    ("sentinels", [-1, -2, 0, 1, -100], -3),
+    ("int64", [2 ** 31, -2 ** 31 - 1, -1, 2 ** 62 + 1, -2 ** 63, 2 ** 63 - 1, 0], -2 ** 40),
+]
+ER_VOCAB_WEIGHTS = [25, 30, 30, 15]
+ER_UNMAPPED = 77          # in no vocabulary above
 
 
 def rand_name(rng, lo=1, hi=5):
@@ -87,11 +100,16 @@ def nonmatching(prefix, suffix):
     return [n for n in c if not matches(prefix, suffix, n)][:2]
 
 
+ALI_WIDE = [-100, -2, -1, 2 ** 31, -2 ** 63, 2 ** 63 - 1]
+
+
 def rand_ali(rng, empty_ok=False):
     n = rng.choice([0] if empty_ok and rng.random() < 0.5 else [1, 2, 3, 5, 8])
+    # labels of either sign; one alignment in five over the values used as sentinels elsewhere and the ends of int64
+    vals = ALI_WIDE if rng.random() < 0.2 else [-1, 0, 1, 2, 3]
     out = []
     while len(out) < n:
-        out += [rng.randint(-1, 3)] * rng.randint(1, 3)
+        out += [rng.choice(vals)] * rng.randint(1, 3)
     return out[:n]
 
 
@@ -106,7 +124,14 @@ class C17(PropertyCheck):
             "default and non-default --file-prefix/--file-suffix (empty ones, prefix == suffix, overlapping), "
             "junk files that must not be selected; kinds: alidir (ali->ref->ali), refdir (ref->ali->ref incl. "
             "non-canonical and malformed refs), trn/ctm/textgrid round trips, er (error-rate command: "
-            "replace/ignore/batch size/per-utt/distances/missing), subset (every criterion x copy mode), "
+            "replace/ignore/batch size/per-utt/distances/missing/costs; stored ids over four vocabularies -- "
+            "0..4, -3..3, the command's own eos/padding values {-1,-2,0,1,-100}, the ends of int64 -- with a "
+            "further id only the --replace/--ignore lists name; without --id2token (60%) and with a bijective "
+            "one (tokens 't<id>' or numerals of OTHER ids, either column order via --swap; 6% of those with a "
+            "stored id the table lacks: ValueError); token files of shape (R,), (R,1), (R,3) with and without "
+            "times; REF HYP OUT or the parent directory with the figures on stdout; with/without --quiet), "
+            "token ids of the trn/ctm/textgrid vocabularies and alignment labels also over {-100, 2^31, "
+            "-2^63, 2^63-1}, subset (every criterion x copy mode), "
             "moments (ali/ref length moments), mvn (grouped MVN statistics); textgrid also with a tier "
             "without intervals (10%) and frame shifts that are inexact in float32 (12%: 11.61, 11.6, 0.1, "
             "1000/44100 ms); --utt-list with an utterance listed twice (30% of the list cases); every kind includes the empty "
@@ -204,7 +229,8 @@ class C17(PropertyCheck):
 
     def gen_vocab(self, rng):
         toks = rng.sample(["a", "b", "c", "dd", "e-1", "<s>", "é", "7"], rng.randint(2, 5))
-        ids = rng.sample(range(-2, 12), len(toks))
+        # ids of either sign, the values -1 / -2 / -100 other code uses as sentinels, the ends of int64
+        ids = rng.sample(list(range(-2, 12)) + [-100, 2 ** 31, -2 ** 63, 2 ** 63 - 1], len(toks))
         return [[t, i] for t, i in zip(toks, ids)]
 
     def gen_trn(self, rng, tier):
@@ -284,7 +310,10 @@ class C17(PropertyCheck):
     def gen_er(self, rng, tier):
         p, s = pick_affixes(rng, 0.6)
         use_map = rng.random() < 0.4
-        vocab = list(range(0, 5))
+        # token ids are arbitrary integers (`_parse_token2id` reads a leading '-', the library's tests use
+        # negative ids for filler symbols): ids of either sign, the values the command itself uses as
+        # end-of-sequence (-1) and padding (-2) when it calls error_rate, -100, and the ends of int64
+        vclass, vocab, other = ER_VOCABS[rng.choices(range(len(ER_VOCABS)), ER_VOCAB_WEIGHTS)[0]]
         utts = sorted(rand_utts(rng, rng.choice([0, 1, 2, 3, 4, 6])))
         empty_ref = rng.random() < 0.12
         refs, hyps = [], []
@@ -307,17 +336,39 @@ class C17(PropertyCheck):
         if miss and len(utts) > 1:
             (refs if rng.random() < 0.5 else hyps).pop(rng.randrange(len(utts)))
             if rng.random() < 0.5:
-                hyps.append(["zz" + rand_name(rng), [1]])
+                hyps.append(["zz" + rand_name(rng), [vocab[1]]])
         replace = []
         if rng.random() < 0.5:
             for _ in range(rng.randint(1, 3)):
-                replace.append([rng.choice(vocab), rng.choice(vocab + [9])])
-        ignore = rng.sample(vocab + [9], rng.choice([0, 0, 1, 2]))
+                replace.append([rng.choice(vocab), rng.choice(vocab + [other])])
+        ignore = rng.sample(vocab + [other], rng.choice([0, 0, 1, 2]))
         costs = rng.choice([None, None, "nist", [1.0, 2.0, 1.5], [0.5, 0.5, 2.0]])
-        return {"kind": "er", "prefix": p, "suffix": s, "refs": refs, "hyps": hyps, "use_map": use_map,
+        case = {"kind": "er", "prefix": p, "suffix": s, "refs": refs, "hyps": hyps, "use_map": use_map,
                 "replace": replace, "ignore": ignore, "warn": miss and rng.random() < 0.7,
                 "distances": rng.random() < 0.3, "per_utt": rng.random() < 0.4,
-                "batch": rng.choice([1, 2, 3, 100]), "costs": costs, "timed": rng.random() < 0.3}
+                "batch": rng.choice([1, 2, 3, 100]), "costs": costs,
+                # stored form of a token sequence: (R,), (R, 1), (R, 3) with frame numbers, (R, 3) with -1 -1
+                "timed": rng.choice([False, False, False, True, True, "col", "unk"]),
+                "vocab": vclass,
+                # the two ways of naming the directories: REF HYP OUT, or the parent of ref/ and hyp/ (then the
+                # figures go to stdout: a second positional would be read as HYP)
+                "layout": "parent" if rng.random() < 0.25 else "two",
+                "quiet": rng.random() < 0.8}
+        if use_map:
+            # --id2token: a bijection ids <-> tokens covering every id of the corpus and of the lists. Token
+            # spellings: 't<id>' or numerals that are the id of ANOTHER token (a token called '-1' is not id -1);
+            # the file in either column order (--swap)
+            ids = sorted(set(vocab + [other]))
+            rng.shuffle(ids)
+            case["map_ids"] = ids
+            case["map_style"] = rng.choice(["t", "t", "num"])
+            case["swap"] = rng.random() < 0.3
+            # malformed stream: a stored id that the map does not cover is refused (ValueError)
+            stored = [x for x in refs + hyps if x[1]]
+            if stored and rng.random() < 0.06:
+                toks = rng.choice(stored)[1]
+                toks[rng.randrange(len(toks))] = ER_UNMAPPED
+        return case
 
     def gen_subset(self, rng, tier):
         p, s = pick_affixes(rng, 0.5)
@@ -373,7 +424,7 @@ class C17(PropertyCheck):
         for j in junk_names(rng, p, s, taken):
             files.append([j, [1, 1] if which == "ali" else [[1, 0, 50]]])
         return {"kind": "moments", "which": which, "prefix": p, "suffix": s, "files": files,
-                "excl": rng.sample([-1, 0, 1, 2, 3], rng.choice([0, 0, 1, 2])),
+                "excl": rng.sample([-1, 0, 1, 2, 3, -100, 2 ** 31], rng.choice([0, 0, 1, 2])),
                 "bessel": rng.random() < 0.4, "std": rng.random() < 0.3,
                 "precision": rng.choice([3, 3, 1, 6])}
 
@@ -588,12 +639,16 @@ class C17(PropertyCheck):
         import torch
         mod = K.cl()
         with K.tmpdir() as d:
-            rd, hd = os.path.join(d, "r"), os.path.join(d, "h")
+            rd, hd = os.path.join(d, "ref"), os.path.join(d, "hyp")
             os.makedirs(rd)
             os.makedirs(hd)
             for dd, lst in ((rd, case["refs"]), (hd, case["hyps"])):
                 for u, toks in lst:
-                    if case["timed"]:
+                    if case["timed"] == "col":
+                        t = K.long_tensor(toks, (len(toks), 1))
+                    elif case["timed"] == "unk":
+                        t = K.long_tensor([[x, -1, -1] for x in toks], (len(toks), 3))
+                    elif case["timed"]:
                         t = K.long_tensor([[x, i, i + 1] for i, x in enumerate(toks)], (len(toks), 3))
                     else:
                         t = K.long_tensor(toks)
@@ -601,12 +656,15 @@ class C17(PropertyCheck):
                 for j in nonmatching(case["prefix"], case["suffix"]):
                     K.save(K.long_tensor([0, 0, 0]), os.path.join(dd, j))
             out = os.path.join(d, "out.txt")
-            argv = [rd, hd, out] + K.name_args(case["prefix"], case["suffix"]) + ["--quiet", "--batch-size", str(case["batch"])]
-            name = (lambda x: "t%d" % x) if case["use_map"] else str
+            parent = case.get("layout") == "parent"
+            argv = ([d] if parent else [rd, hd, out]) + K.name_args(case["prefix"], case["suffix"]) \
+                + (["--quiet"] if case.get("quiet", True) else []) + ["--batch-size", str(case["batch"])]
+            name, tok = self._er_names(case)
             if case["use_map"]:
                 mp = os.path.join(d, "id2token")
-                K.write_map(mp, [["t%d" % i, i] for i in range(0, 10)], id_first=True)
-                argv += ["--id2token", mp]
+                swap = case.get("swap", False)
+                K.write_map(mp, [[t, i] for i, t in tok.items()], id_first=not swap)
+                argv += ["--id2token", mp] + (["--swap"] if swap else [])
             if case["replace"]:
                 rp = os.path.join(d, "replace")
                 with open(rp, "w") as f:
@@ -625,11 +683,12 @@ class C17(PropertyCheck):
                 argv.append("--nist-costs")
             elif case["costs"]:
                 argv += ["--costs"] + [str(x) for x in case["costs"]]
-            seen = []
+            seen, tensors = [], []
             real = mod.error_rate
             ci, cd, cs = self.costs_of(case)
 
             def spy(ref, hyp, **kw):
+                tensors.append([ref.t().tolist(), hyp.t().tolist()])
                 ers = real(ref, hyp, **kw)
                 # the pair ALONE, with the costs the command line asked for (not the ones the
                 # command happened to pass on)
@@ -643,15 +702,20 @@ class C17(PropertyCheck):
 
             mod.error_rate = spy
             self._er_seen = (json.dumps(case, sort_keys=True), seen)
+            stdout = io.StringIO()
             try:
-                ret = K.call("compute_torch_token_data_dir_error_rates", argv)
+                with contextlib.redirect_stdout(stdout):
+                    ret = K.call("compute_torch_token_data_dir_error_rates", argv)
             except Exception as e:
-                return {"error": type(e).__name__, "message": str(e)[:200], "seen": seen}
+                return {"error": type(e).__name__, "message": str(e)[:200], "seen": seen, "tensors": tensors}
             finally:
                 mod.error_rate = real
-            with open(out) as f:
-                text = f.read()
-            return {"ret": ret, "text": text, "seen": seen}
+            if parent:
+                text = stdout.getvalue()
+            else:
+                with open(out) as f:
+                    text = f.read()
+            return {"ret": ret, "text": text, "seen": seen, "tensors": tensors}
 
     def impl_subset(self, case):
         import torch
@@ -807,7 +871,7 @@ class C17(PropertyCheck):
                 if k == "textgrid" else None
             return {"op": "c17.timed", "case": req}
         if k == "er":
-            name = (lambda x: "t%d" % x) if case["use_map"] else str
+            name, _ = self._er_names(case)
             # the table of observed per-pair values is attached in compare() (needs the run);
             # the request carries what the run saw via a side channel filled by run_impl
             return {"op": "c17.er", "case": {
@@ -842,6 +906,28 @@ class C17(PropertyCheck):
                 files.append(["" if g is None else g[u], [[frac_str(x) for x in r] for r in rows]])
             return {"op": "c17.mvn", "case": {"dim_last": case["dim_last"], "bessel": case["bessel"], "files": files}}
         return None
+
+    @staticmethod
+    def _er_names(case):
+        """(id -> its spelling in the --replace / --ignore files and in the model's request, id2token table):
+        without --id2token the numeral of the id itself; with it the token the id2token file gives the id --
+        't<id>', or (style 'num') the numeral of the NEXT id of the table, so that a token spelt '-1' is not id -1."""
+        if not case["use_map"]:
+            return str, None
+        ids = case.get("map_ids", list(range(10)))
+        if case.get("map_style", "t") == "num":
+            tok = {i: str(ids[(k + 1) % len(ids)]) for k, i in enumerate(ids)}
+        else:
+            tok = {i: "t%d" % i for i in ids}
+        return (lambda x: tok.get(x, "?%d" % x)), tok
+
+    @classmethod
+    def _er_unmapped(cls, case):
+        """Stored ids that --id2token does not cover (the command must refuse them)."""
+        tok = cls._er_names(case)[1]
+        if tok is None:
+            return []
+        return sorted({t for _, toks in case["refs"] + case["hyps"] for t in toks if t not in tok})
 
     @staticmethod
     def costs_of(case):
@@ -1227,6 +1313,8 @@ class C17(PropertyCheck):
 
     def cmp_er(self, case, impl, model):
         out = []
+        if self._er_unmapped(case):
+            return out         # refused while loading (predicate); the model starts from loaded transcripts
         if model.get("fixed_costs") is not None and not self._er_same(case, impl, model["fixed_costs"]):
             out.append(f"printed impl={impl.get('text', impl.get('error'))!r}, model with C02's error_rate model "
                        f"for costs {case['costs']}: {model['fixed_costs']}")
@@ -1234,6 +1322,17 @@ class C17(PropertyCheck):
             pin = self._er_same(case, impl, model["pinned"])
             out.append(f"printed impl={impl.get('text', impl.get('error'))!r} model={model['fixed']}"
                        + (" (impl equals the pinned model: per-utterance quotient evaluated in every mode)" if pin else ""))
+        # the tensors of every error_rate call, column by column: the model's renumbering (references of the
+        # batch first, then hypotheses, table kept across batches), eos -1, padding -2 (C17_er_tensor_read)
+        mt, it = model.get("tensors"), impl.get("tensors")
+        if mt is not None and it is not None:
+            exp = mt[:len(it)] if "error" in impl else mt
+            for n, (a, b) in enumerate(zip(it, exp)):
+                if a != b:
+                    out.append(f"call {n} of error_rate: (ref, hyp) columns impl={a} model={b}")
+                    break
+            if len(it) != len(exp):
+                out.append(f"{len(it)} calls of error_rate, model {len(exp)}")
         for r, h, inbatch, alone in impl.get("seen", []):
             if inbatch != alone:
                 out.append(f"error_rate in a batch gives {inbatch} for ({r},{h}), alone {alone}")
@@ -1243,6 +1342,12 @@ class C17(PropertyCheck):
         # Σ edits / Σ |ref| with batch size 1 == any batch size (C17_er_total); with --costs the edits
         # are those of C02's model of error_rate (C17_er_total_costs), else the Levenshtein distance
         spec = model["batch1_costs"] if model.get("batch1_costs") is not None else model["batch1"]
+        un = self._er_unmapped(case)
+        if un:
+            return [] if impl.get("error") == "ValueError" else [
+                (f"stored id(s) {un} are not in the --id2token table, yet the command "
+                 f"{'raised ' + impl['error'] if 'error' in impl else 'printed ' + repr(impl.get('text'))} "
+                 "instead of ValueError", None)]
         refs_empty = any(len(r) == 0 for _, r, _ in model["prepped"])
         if spec["kind"] == "missing_error":
             return [] if impl.get("error") == "ValueError" else [
@@ -1428,6 +1533,18 @@ class C17(PropertyCheck):
                 t.append("er.replace")
             if case["ignore"]:
                 t.append("er.ignore")
+            t.append("er.ids=" + case.get("vocab", "nonneg"))
+            t.append("er.stored=" + {False: "R", True: "Rx3"}.get(case["timed"], str(case["timed"])))
+            t.append("er.layout=" + case.get("layout", "two"))
+            t.append("er.id2token=" + ("none" if not case["use_map"] else
+                                       case.get("map_style", "t") + ("+swap" if case.get("swap") else "")))
+            if self._er_unmapped(case):
+                t.append("er.unmapped_id")
+            rep = dict((a, b) for a, b in case["replace"])          # histogram only: which ids are scored
+            kept = {rep.get(x, x) for _, toks in case["refs"] + case["hyps"] for x in toks} - set(case["ignore"])
+            for v in (-1, -2):
+                if v in kept:
+                    t.append(f"er.id{v}_scored" + ("" if case["use_map"] else "_raw"))
         if k == "subset":
             t += ["subset." + case["crit"]["kind"], "subset.mode=" + case["mode"]]
             if self._dup_listed(case):
@@ -1461,8 +1578,19 @@ class C17(PropertyCheck):
                     c = dict(case)
                     c[key] = v[:i] + v[i + 1:]
                     yield c
-        if (case.get("prefix"), case.get("suffix")) != ("", ".pt") and case["kind"] in ("moments", "er", "mvn"):
-            pass
+        if case["kind"] == "er":
+            # an utterance on both sides at once; one token of one sequence; options back to their defaults
+            for u in sorted({x[0] for x in case["refs"]} & {x[0] for x in case["hyps"]}):
+                yield dict(case, refs=[x for x in case["refs"] if x[0] != u], hyps=[x for x in case["hyps"] if x[0] != u])
+            for key in ("refs", "hyps"):
+                for i, (u, toks) in enumerate(case[key]):
+                    for j in range(len(toks)):
+                        yield dict(case, **{key: case[key][:i] + [[u, toks[:j] + toks[j + 1:]]] + case[key][i + 1:]})
+            for key, dflt in (("prefix", ""), ("suffix", ".pt"), ("timed", False), ("layout", "two"), ("quiet", True),
+                              ("distances", False), ("per_utt", False), ("batch", 100), ("costs", None),
+                              ("warn", False), ("swap", False), ("map_style", "t")):
+                if key in case and case[key] != dflt:
+                    yield dict(case, **{key: dflt})
         for key in ("corpus", "files"):
             v = case.get(key)
             if isinstance(v, list):
